@@ -17,9 +17,11 @@ package proxy
 //   - pool timeout "large" (5 s) or none: no "hang"; network errors and
 //     cancellation allowed;
 //   - cancellation is performed by the stub itself, synchronously, inside the
-//     chosen call ("during": before it returns the context error; "backoff":
+//     first call ("during": before it returns the context error; "backoff":
 //     before it returns a response-type failure, so the select of the back-off
-//     finds ctx.Done() ready) or before Handle is called ("before");
+//     finds ctx.Done() ready) or before Handle is called ("before"); such cases
+//     use a 3 s wait (back-off >= 1.5 s) so that no preemption can make the
+//     back-off timer ready together with ctx.Done(), and they never sleep it;
 //   - only lower bounds on gaps are reported/judged; the per-request guard
 //     (20 s) exists only so that a hanging mutant ends.
 
@@ -171,7 +173,7 @@ func c10Gen(r *verifh.Rand, i int) interface{} {
 	case 2:
 		in.TimeoutNs = int64(5 * time.Second)
 	}
-	defaultWait := false
+	defaultWait, cancelCase := false, false
 	if r.Bool(17, 20) {
 		rt := &c10Retry{Max: r.PickInt(1, 2, 2, 3, 3, 4, 5), Wait: r.Pick("1ms", "2ms", "2ms", "3ms", "5ms", "1500us"),
 			Backoff: r.Pick("random", "exponential", "exponential", "")}
@@ -183,7 +185,24 @@ func c10Gen(r *verifh.Rand, i int) interface{} {
 			rt.Backoff = "random"
 			defaultWait = true
 		}
+		// Cancellation cases: after the client is gone the back-off select has ctx.Done() ready
+		// and a timer; if the goroutine were preempted for longer than the back-off both would
+		// be ready and Go may pick either. A back-off of >= 1.5 s makes that impossible in
+		// practice, and a correct tree never sleeps it (see the request generator below).
+		if tkind != 1 && r.Bool(1, 4) {
+			cancelCase, defaultWait = true, false
+			rt.Wait = "3s"
+			if rt.FNum*2 > rt.FDen {
+				rt.FNum, rt.FDen = 1, 2
+			}
+			if rt.Max < 2 {
+				rt.Max = r.PickInt(2, 3, 5)
+			}
+		}
 		in.Retry = rt
+	}
+	if in.Retry == nil && tkind != 1 && r.Bool(1, 4) {
+		cancelCase = true // no back-off at all: only the 499 classification is exercised
 	}
 	nreq := r.Range(1, 3)
 	if r.Bool(2, 5) {
@@ -200,31 +219,21 @@ func c10Gen(r *verifh.Rand, i int) interface{} {
 	for q := 0; q < nreq; q++ {
 		rq := c10Req{Stream: r.Bool(1, 5)}
 		rq.Script = c10GenScript(r, max+1, tkind, in.FailureCodes)
-		if tkind != 1 && r.Bool(1, 4) { // cancellation only where no deadline can interfere
-			rq.Cancel = r.Pick("before", "during", "during", "backoff", "backoff")
-			rq.At = r.Intn(max + 1)
-			switch rq.Cancel {
-			case "before":
+		if cancelCase {
+			// Every request of a cancel case is cancelled at its first transport call (or is
+			// answered at once), so the 3 s back-off of the case is never actually slept.
+			if r.Bool(1, 4) {
+				for k := range rq.Script {
+					rq.Script[k] = "ok"
+				}
+			} else {
+				rq.Cancel = r.Pick("before", "during", "during", "backoff", "backoff")
 				rq.At = 0
-			case "backoff":
-				// the stub cancels inside call At and then answers with a failure whose
-				// classification does not consult the context
-				for k := 0; k < rq.At && k < len(rq.Script); k++ {
-					rq.Script[k] = r.Pick("net", "bad", "net")
+				if rq.Cancel == "backoff" {
+					// the stub cancels inside call 0 and then answers with a failure whose
+					// classification does not consult the context
+					rq.Script[0] = "bad"
 				}
-				if rq.At < len(rq.Script) {
-					rq.Script[rq.At] = "bad"
-				}
-			case "during":
-				for k := 0; k < rq.At && k < len(rq.Script); k++ {
-					if r.Bool(2, 3) {
-						rq.Script[k] = r.Pick("net", "bad")
-					}
-				}
-			}
-			// with f = 1 the back-off may be 0 ns and the select could pick either ready case
-			if in.Retry != nil && in.Retry.FNum == in.Retry.FDen {
-				in.Retry.FNum, in.Retry.FDen = 1, 2
 			}
 		}
 		in.Reqs = append(in.Reqs, rq)
